@@ -70,8 +70,10 @@ def build(variant='plain'):
         return exe
     # drop builds of other trees (disk is limited)
     for old in glob.glob(os.path.join(OUT, 'build', '*')):
-        if os.path.basename(old) not in (th, 't'):
+        if os.path.basename(old) not in (th, 't') and time.time() - os.path.getmtime(old) > 3600:
             shutil.rmtree(old, ignore_errors=True)
+    final = d
+    d = d + '.tmp%d' % os.getpid()          # concurrent checks build side by side and rename atomically
     os.makedirs(d, exist_ok=True)
     cc, flags = VARIANTS[variant]
     srcs = sorted(glob.glob(os.path.join(REPO, 'src', '*.cpp'))) + sorted(glob.glob(os.path.join(HARNESS, '*.cpp')))
@@ -87,10 +89,14 @@ def build(variant='plain'):
             if r.returncode != 0:
                 shutil.rmtree(d, ignore_errors=True)
                 raise MachineryError('compile failed (%s): %s\n%s' % (variant, src, r.stdout[-3000:]))
-    r = sh('%s %s %s/*.o -o %s.tmp -lpthread && mv %s.tmp %s' % (cc, flags, d, exe, exe, exe))
+    r = sh('%s %s %s/*.o -o %s/exec -lpthread && rm -f %s/*.o' % (cc, flags, d, d, d))
     if r.returncode != 0:
         shutil.rmtree(d, ignore_errors=True)
         raise MachineryError('link failed (%s)\n%s' % (variant, r.stdout[-3000:]))
+    try:
+        os.rename(d, final)
+    except OSError:
+        shutil.rmtree(d, ignore_errors=True)    # another check finished the same build first
     log('built %s executor in %.1fs (tree %s)' % (variant, time.time() - t0, th))
     return exe
 
